@@ -32,11 +32,11 @@ PKG = "felix/dataplane/windows"
 
 # (cfg, how many layouts to replay in quick / thorough; None = all)
 ENUM = {
-    "quick": [("Gen_Win_quick.cfg", 130)],
-    "thorough": [("Gen_Win_all2.cfg", 2400), ("Gen_Win_q.cfg", 2000), ("Gen_Win_m14.cfg", 400), ("Gen_Win_m16.cfg", 400),
-                 ("Gen_Win_m25.cfg", 400), ("Gen_Win_m36.cfg", 400), ("Gen_Win_m27.cfg", 400)],
+    "quick": [("Gen_Win_quick.cfg", 400)],
+    "thorough": [("Gen_Win_all2.cfg", None), ("Gen_Win_q.cfg", None), ("Gen_Win_m14.cfg", 3000), ("Gen_Win_m16.cfg", 3000),
+                 ("Gen_Win_m25.cfg", 3000), ("Gen_Win_m36.cfg", 3000), ("Gen_Win_m27.cfg", 3000)],
 }
-SIZES = {"quick": dict(n=20, nbig=2, shards=4), "thorough": dict(n=500, nbig=10, shards=4)}
+SIZES = {"quick": dict(n=40, nbig=2, shards=4), "thorough": dict(n=2500, nbig=25, shards=4)}
 
 
 def _scale(x):
